@@ -252,6 +252,11 @@ Fixpoint shape (F : nat) (h : heap) (n : nat) : tree :=
 (* every node below n (n included) lies in [lo, length h) *)
 Definition within (lo : nat) (h : heap) (n : nat) : Prop := forall F m, In m (dfs F h n) -> lo <= m < length h.
 
+(* there is a downward path of d edges from c (so a fuel F with d < F for all of them looks at the whole subtree) *)
+Inductive deep (h : heap) : nat -> nat -> Prop :=
+| deep_0 : forall c, deep h c 0
+| deep_S : forall c x d, In x (children h c) -> deep h x d -> deep h c (S d).
+
 (* ---- normalize, on trees: merge runs of adjacent text children, everywhere ----------------------------- *)
 
 Definition text_leaf (t : tree) : option (list Z) := match t with T (Some (KText s)) _ => Some s | _ => None end.
